@@ -53,7 +53,7 @@ def main(argv=None):
         return 1
     if r["errors"]:
         return 3
-    if r["n_ob"] == 0 and not r["bounded"]:
+    if r["n_ob"] == 0 and not r["bounded"] and not r["undecided"]:
         print("CHECKER-ERROR: zero obligations generated")
         return 3
     return 0
